@@ -57,10 +57,10 @@ func (m *Params) ParamSetPairs() paramtypes.ParamSetPairs {
 }
 
 func (m *Params) validate() error {
-	if m.EnableVesting {
-		return validatePerBlockReward(m.PerBlockReward)
-	}
-	return nil
+	// the reward is validated regardless of EnableVesting: InitGenesis stores the
+	// params through SetParamSet, which runs the validator of every field and
+	// panics on failure, and vesting can be enabled later without touching the reward
+	return validatePerBlockReward(m.PerBlockReward)
 }
 
 func DefaultParams() Params {
